@@ -533,9 +533,10 @@ func (w *binaryWriter) beginValue(api string) error {
 		var id uint64
 		if name.Text != nil {
 			// Written by text, like annotations: the token's LocalSID belongs to the table it
-			// was read from.
+			// was read from. The text is literal even if it looks like "$7" (a Reader gives
+			// such text only to a quoted symbol).
 			var err error
-			id, err = w.resolve(api, *name.Text)
+			id, err = w.resolveFromSymbolTable(api, *name.Text)
 			if err != nil {
 				return err
 			}
@@ -560,7 +561,7 @@ func (w *binaryWriter) beginValue(api string) error {
 		var err error
 		for i, a := range as {
 			if a.Text != nil {
-				id, err = w.resolve(api, *a.Text)
+				id, err = w.resolveFromSymbolTable(api, *a.Text)
 				if err != nil {
 					return err
 				}
